@@ -1,3 +1,191 @@
-(* Props/C05.v — property C05 (work in progress). *)
-From Coq Require Import String.
-From PX.Lib Require Import Base.
+(* Props/C05.v — property C05: verdict, reported errors and acknowledgement always agree.
+   Statements only.  Specs: Spec/C05_spec.v, Spec/C05_spec999.v.  Proofs: Proofs/C05_ack.v, C05_ack999.v, C05_verdict.v,
+   C05_tree.v, C05_forms.v, C05_printable.v, C05_examples.v (on top of the C06 envelope proofs).
+
+   What is proved, for EVERY error tree (state of error_handler.err_handler) and clock:
+   - the 997 / 999 written is exactly envelope + one numbered set per functional group node, whose body is a function
+     (expected_sets_997 / _999, Spec) of the tree: AK1, then per set AK2, its AK3 / AK4 (IK3 / IK4) items in tree
+     order with the segment position, element position, code and offending value of the node, AK5 (IK5) with the
+     set's code, then AK9 with the group's code and totals (C05_997_content, C05_999_content);
+   - it names every group and every set of the tree, in order, with their own control numbers
+     (C05_names_every_group_and_set, C05_tree_is_visited: the handler API only ever builds trees all of whose nodes
+     are visited);
+   - a set is marked accepted exactly when no counted error lies inside it (C05_set_accepted_iff_no_counted_error);
+   - the group totals are declared (GE01) / received (reader's count) / accepted = received - failed sets
+     (C05_group_totals, C05_group_totals_origin);
+   - the verdict is True exactly when no validation failed and the tree counts no error (C05_verdict_definition), and
+     a tree with no counted error has every group and set accepted (C05_error_free_all_accepted).
+
+   PARTIAL.  "no error reported at any level <-> accepted" is FALSE of the code in three corners, each a proved
+   counterexample below and a recorded finding (known_findings.json: C05-errors-on-envelope-lines-do-not-count,
+   C05-unlocated-set-counted-accepted): an element error on the ST line is not counted by the set; an element error
+   on the GS line is counted by the verdict but the group is acknowledged A; a group that is never closed is
+   acknowledged R / 0 / 0 / 0 whatever it contains.  That the error tree is the tree of the errors the validator
+   reported (driver -> handler calls) is checked by correspondence (walk / pipeline units), not proved here. *)
+From Coq Require Import String ZArith.
+From PX.Lib Require Import Base PyStr PyInt.
+From PX.Model Require Import Show Path Segment Errh Ack997 Ack999.
+From PX.Model Require Driver.
+From PX.Spec Require Import C06_spec C05_spec C05_spec999.
+From PX.Proofs Require Import C06_lemmas C06_ack997 C06_ack999 C06_ack C05_ack C05_ack999 C05_verdict C05_tree C05_forms
+                              C05_printable C05_examples.
+Local Notation l := list_ascii_of_string.
+
+(* ---- the content of the 997: nothing assumed about the tree or the clock ---- *)
+Theorem C05_997_content :
+  forall ck h h' lines, render_997 ck h = (h', lines, None) ->
+  exists isa gs trailer,
+    lines = map line_997 ([isa; gs] ++ number_sets 1 (expected_sets_997 h) ++ trailer) /\
+    has_sid isa "ISA" = true /\ has_sid gs "GS" = true /\
+    (exists x6, gs06_of h = Some x6 /\
+       (trailer = [ge_997 (length (expected_sets_997 h)) x6; iea_997 ck] \/
+        exists ta1, has_sid ta1 "TA1" = true /\ trailer = [ge_997 (length (expected_sets_997 h)) x6; ta1; iea_997 ck])) /\
+    h' = normalise_997 h.
+Proof. exact ack997_content_any. Qed.
+Print Assumptions C05_997_content.
+
+Theorem C05_999_content :
+  forall ck h h' lines, render_999 ck h = (h', lines, None) ->
+  exists isa gs trailer,
+    lines = map line_999 ([isa; gs] ++ number_sets_999 1 (expected_sets_999 h) ++ trailer) /\
+    has_sid isa "ISA" = true /\ has_sid gs "GS" = true /\
+    (trailer = [ge_999 ck (length (expected_sets_999 h)); iea_999 ck] \/
+     exists ta1, has_sid ta1 "TA1" = true /\ trailer = [ge_999 ck (length (expected_sets_999 h)); ta1; iea_999 ck]) /\
+    h' = normalise_997 h.
+Proof. exact ack999_content_any. Qed.
+Print Assumptions C05_999_content.
+
+(* the spec's totalising defaults (val, valZ, okl, the_seg) never show on a tree that yields a 997 *)
+Theorem C05_997_spec_defaults_unused :
+  forall ck h h' lines, render_997 ck h = (h', lines, None) -> printable_997 h.
+Proof. exact render_997_printable. Qed.
+Print Assumptions C05_997_spec_defaults_unused.
+
+(* ---- names every group and set, in order ---- *)
+Theorem C05_names_every_group_and_set :
+  forall ck h h' lines, render_997 ck h = (h', lines, None) ->
+  exists segs, lines = map line_997 segs /\ filter is_ak12 segs = names_997 h.
+Proof. exact ack_names_every_group_and_set. Qed.
+Print Assumptions C05_names_every_group_and_set.
+
+Theorem C05_names_every_group_and_set_999 :
+  forall ck h h' lines, render_999 ck h = (h', lines, None) ->
+  exists segs, lines = map line_999 segs /\ filter is_ak12 segs = names_999 h.
+Proof. exact ack999_names_every_group_and_set. Qed.
+Print Assumptions C05_names_every_group_and_set_999.
+
+(* whatever sequence of handler API calls built the tree (raising ones included), the names are ALL its group nodes,
+   each followed by its own sets, and these sets put end to end are ALL set nodes, in creation order *)
+Theorem C05_tree_is_visited :
+  forall ms, Forall api_call ms ->
+    let h := run_calls ms errh_init in
+    names_997 h = flat_map (fun g => ak1_997 g :: map ak2_997 (nodes_at (h_st h) (gn_children g))) (h_gs h) /\
+    flat_map (fun g => nodes_at (h_st h) (gn_children g)) (h_gs h) = h_st h.
+Proof. intros ms H. apply tree_names. apply built_is_tree. exact H. Qed.
+Print Assumptions C05_tree_is_visited.
+
+(* ---- accepted exactly when no counted error ---- *)
+Theorem C05_set_accepted_iff_no_counted_error :
+  forall src h i t, c_st h = Some i -> nth_error (h_st h) i = Some t ->
+  exists h' t', close_st_loop src h = (h', Ok tt) /\ nth_error (h_st h') i = Some t' /\
+    (tn_ack t' = Some (l "A") <-> st_err_count h t = 0) /\
+    (tn_ack t' = Some (l "R") <-> st_err_count h t <> 0) /\
+    elc_is (ak5_997 h' t') 1 (st_code h t) = true.
+Proof. exact set_accepted_iff_no_counted_error. Qed.
+Print Assumptions C05_set_accepted_iff_no_counted_error.
+
+Theorem C05_set_accepted_iff_no_counted_error_999 :
+  forall src h i t, c_st h = Some i -> nth_error (h_st h) i = Some t ->
+  exists h' t', close_st_loop src h = (h', Ok tt) /\ nth_error (h_st h') i = Some t' /\
+    elc_is (ik5_999 h' t') 1 (st_code h t) = true.
+Proof. exact set_accepted_iff_no_counted_error_999. Qed.
+Print Assumptions C05_set_accepted_iff_no_counted_error_999.
+
+(* ---- group totals ---- *)
+Theorem C05_group_totals :
+  forall h g,
+  let sets := nodes_at (h_st h) (gn_children g) in
+  elc (ak9_997 h g) 1 = Some (split ":"%char (val (gs_ack_written g))) /\
+  elc_is (ak9_997 h g) 2 (fmt_Zi (gn_orig g)) = true /\
+  elc_is (ak9_997 h g) 3 (fmt_Zi (gn_recv g)) = true /\
+  elc_is (ak9_997 h g) 4 (fmt_Zi (gs_accepted h g)) = true /\
+  gs_count_failed_st h g + length (filter st_passed sets) = length sets /\
+  gs_accepted h g = Z.max (gn_recv g - (Z.of_nat (length sets) - Z.of_nat (length (filter st_passed sets)))) 0 /\
+  (gn_recv g = Z.of_nat (length sets) -> gs_accepted h g = Z.of_nat (length (filter st_passed sets))).
+Proof. exact group_totals. Qed.
+Print Assumptions C05_group_totals.
+
+Theorem C05_group_totals_999 :
+  forall h g,
+  elc (ak9_999 h g) 1 = Some (split ":"%char (val (gs_ack_written g))) /\
+  elc_is (ak9_999 h g) 2 (fmt_Zi (gn_orig g)) = true /\
+  elc_is (ak9_999 h g) 3 (fmt_Zi (gn_recv g)) = true /\
+  elc_is (ak9_999 h g) 4 (fmt_Zi (gs_accepted h g)) = true.
+Proof. exact group_totals_999. Qed.
+Print Assumptions C05_group_totals_999.
+
+(* where the numbers come from: GE01 as an integer (0 if absent / not numeric), the reader's set counter, and the
+   group's code decided at the GE *)
+Theorem C05_group_totals_origin :
+  forall x src h i g z, c_gs h = Some i -> nth_error (h_gs h) i = Some g -> ge01_count x = Ok z ->
+  exists h' g', close_gs_loop (Some x) src h = (h', Ok tt) /\ nth_error (h_gs h') i = Some g' /\
+    gn_orig g' = z /\ gn_recv g' = src_st_count src /\ gn_ack g' = Some (gs_ack_code h g) /\
+    gn_children g' = gn_children g /\ gn_errors g' = gn_errors g /\ gn_elements g' = gn_elements g /\
+    gn_fic g' = gn_fic g /\ gn_ctl g' = gn_ctl g /\
+    h_isa h' = h_isa h /\ h_st h' = h_st h /\ h_seg h' = h_seg h /\ h_ele h' = h_ele h.
+Proof. exact close_gs_loop_totals. Qed.
+Print Assumptions C05_group_totals_origin.
+
+(* ---- the verdict ---- *)
+Theorem C05_verdict_definition :
+  forall s s' b, Driver.finish s = (s', Ok b) ->
+  (b = true <-> Driver.ds_valid s' = true /\ get_error_count (Driver.ds_errh s') = 0).
+Proof. exact verdict_definition. Qed.
+Print Assumptions C05_verdict_definition.
+
+Theorem C05_error_count_zero_iff_clean : forall h, get_error_count h = 0 <-> heap_clean h.
+Proof. exact error_count_zero. Qed.
+Print Assumptions C05_error_count_zero_iff_clean.
+
+Theorem C05_error_free_all_accepted :
+  forall h, get_error_count h = 0 ->
+  Forall (fun g => gs_ack_code h g = l "A" /\
+                   Forall (fun t => st_err_count h t = 0) (nodes_at (h_st h) (gn_children g))) (visited_gs h).
+Proof. exact error_free_all_accepted. Qed.
+Print Assumptions C05_error_free_all_accepted.
+
+(* ---- where "reported at any level <-> accepted" is false of the code (recorded findings) ---- *)
+(* an element error on the ST line (ST02 too short): not counted, AK5*A, AK9*A*1*1*1 *)
+Theorem C05_st_element_error_not_counted_is_false :
+  get_error_count h_st02 = 0 /\ exists h' lines, render_997 cex_ck h_st02 = (h', lines, None) /\
+    In (l "AK5*A*7~
+") lines /\ In (l "AK9*A*1*1*1~
+") lines.
+Proof.
+  destruct st_element_error_not_counted as [E (h' & R)]. split; [exact E|].
+  eexists _, _. split; [exact R|]. split; vm_compute; tauto.
+Qed.
+Print Assumptions C05_st_element_error_not_counted_is_false.
+
+(* an element error on the GS line: counted (verdict False), group acknowledged A *)
+Theorem C05_gs_element_error_acknowledged_A_is_false :
+  get_error_count h_gs06 = 1 /\ exists h' lines, render_997 cex_ck h_gs06 = (h', lines, None) /\
+    In (l "AK9*A*1*1*1*6~
+") lines.
+Proof.
+  destruct gs_element_error_acknowledged_A as [E (h' & R)]. split; [exact E|].
+  eexists _, _. split; [exact R|]. vm_compute; tauto.
+Qed.
+Print Assumptions C05_gs_element_error_acknowledged_A_is_false.
+
+(* a group that is never closed: its set is accepted, the group says R*0*0*0 *)
+Theorem C05_unclosed_group_totals_is_false :
+  get_error_count h_noge = 0 /\ exists h' lines, render_997 cex_ck h_noge = (h', lines, None) /\
+    In (l "AK5*A~
+") lines /\ In (l "AK9*R*0*0*0~
+") lines.
+Proof.
+  destruct unclosed_group_totals as [E (h' & R & _)]. split; [exact E|].
+  eexists _, _. split; [exact R|]. split; vm_compute; tauto.
+Qed.
+Print Assumptions C05_unclosed_group_totals_is_false.
